@@ -387,9 +387,18 @@ class _CKM(Entry):
     methods = ("predict", "transform")
 
     def spec(self, draw):
-        return dict(cls=self.name, params=dict(n_clusters=draw(st.integers(1, 3)), strategy=draw(st.sampled_from(["distance", "gain"])),
+        k = draw(st.integers(1, 3))
+        init = draw(st.sampled_from(["k-means++", "k-means++", "random", "array"]))
+        if init == "array":
+            # explicit initial centres (the registry's cluster data for this class always has two columns)
+            init = {"array": [[draw(st.integers(-16, 16)) / 2.0, draw(st.integers(-16, 16)) / 2.0] for _ in range(k)]}
+        return dict(cls=self.name, params=dict(n_clusters=k, strategy=draw(st.sampled_from(["distance", "gain"])), init=init,
                                                kmeans0=draw(st.booleans()), random_state=draw(st.one_of(st.none(), st.integers(0, 9))),
-                                               max_iter=draw(st.sampled_from([4, 10])), n_init=1, balanced_predictions=draw(st.booleans())))
+                                               max_iter=draw(st.sampled_from([4, 10])), n_init=draw(st.sampled_from([1, 1, 3])),
+                                               balanced_predictions=draw(st.booleans())))
+
+    def data(self, draw):
+        return d_cluster(draw, d_min=2, d_max=2)
 
     def available(self, est):
         return ["predict"] if est.balanced_predictions else ["predict", "transform"]
@@ -690,7 +699,11 @@ class _PRT(Entry):
         return np.asarray(est.transform(None, Z)[1], dtype=np.float64)
 
     def attributes(self, est):
-        return dict(permutation_=sorted((float(k), int(v)) for k, v in est.permutation_.items()))
+        # the reciprocal transformer is part of the fitted model: what it maps the codes back to
+        inv = est.get_fct_inv()
+        codes = np.array(sorted(int(v) for v in est.permutation_.values()), dtype=np.float64)
+        back = np.asarray(inv.transform(None, codes)[1], dtype=np.float64)
+        return dict(permutation_=sorted((float(k), int(v)) for k, v in est.permutation_.items()), inverse_of_codes=back)
 
 
 # classes covered for the parameter protocol only (C01) --------------------------------------------------------------
